@@ -267,6 +267,9 @@ impl Property for C04 {
                     },
                 );
             }
+            if rng.chance(1, 5) {
+                crate::producer::plant_ext_inst(rng, &mut stream);
+            }
             let n = rng.below(5) as usize;
             let faults = if n == 0 { vec![] } else { faults::gen_faults(rng, &stream, n, faults::ALL_FAULTS) };
             (Source::Stream(stream), faults)
